@@ -441,6 +441,10 @@ func (e *Env) Finish() int {
 		if v.Replay == "" || printed[v.Sig] {
 			continue
 		}
+		if len(printed) >= 8 {
+			fmt.Printf("  (further violation signatures are listed in the evidence file and under replays/)\n")
+			break
+		}
 		printed[v.Sig] = true
 		first := v.Msg
 		if i := strings.IndexByte(first, '\n'); i >= 0 {
@@ -504,6 +508,7 @@ func (e *Env) Finish() int {
 		"verdict":              verdict,
 		"inconclusive_reasons": e.inconcl,
 		"known_findings_seen":  knownSeen,
+		"violation_signatures": e.violSigs,
 	}
 	if e.samples == nil {
 		cov["samples"] = []any{}
